@@ -116,13 +116,35 @@ cocls::async<void> coro_reader(Sub &s, int i) {
     for (;;) { bool ok = co_await s.next(); if (!ok) break; reader_record(i, s.value()); }
     dsim::cell_set(RD_EOS + i, dsim::cell_get(PUBLISHED) + 1);
 }
+
+// event-driven reader: a callback awaiter registered through next().subscribe(); the handler (run inline by the publishing thread)
+// fetches the value, then goes on reading from inside the handler
+struct CbReader : cocls::awaiter {
+    Sub &s; int i; cocls::promise<void> done;
+    CbReader(Sub &s, int i) : s(s), i(i) { set_resume_fn(&fire); }
+    static cocls::suspend_point<void> fire(cocls::awaiter *me, void *) noexcept { auto *r = static_cast<CbReader *>(me); return r->after_wake(); }
+    cocls::suspend_point<void> after_wake() {
+        auto a = s.next();
+        if (!a.await_resume()) return done();
+        reader_record(i, s.value());
+        return pump();
+    }
+    cocls::suspend_point<void> pump() {
+        for (;;) {
+            auto a = s.next();
+            if (!a.await_ready() && a.subscribe(this)) return {};       // parked: the publisher will call fire()
+            if (!a.await_resume()) return done();
+            reader_record(i, s.value());
+        }
+    }
+};
 void multi_thread() {
     size_t maxq = 2 + dsim::choose(5), minq = 1 + dsim::choose(3);
     bool unlimited = maxq == 6; if (minq > maxq) minq = maxq;
     int ns = 1 + dsim::choose(3), npub = 1 + dsim::choose(8);
     int kind[3]; ST mode[3]; bool kick[3];
     for (int i = 0; i < ns; i++) {
-        kind[i] = dsim::choose(4); mode[i] = (ST)dsim::choose(3); kick[i] = dsim::choose(5) == 4;
+        kind[i] = dsim::choose(5); mode[i] = (ST)dsim::choose(3); kick[i] = dsim::choose(5) == 4;
         // a polled reader cannot tell "nothing new" from end-of-stream, so with a concurrent close it may poll once more after the end;
         // the statement says nothing about reads after the end, so polled readers on threads use all_values (where that is harmless)
         if (kind[i] == 3) mode[i] = ST::all_values;
@@ -145,6 +167,7 @@ void multi_thread() {
         case 0: coro_reader(s, i).join(); break;
         case 1: while (s.next()) reader_record(i, s.value()); break;
         case 2: for (long v : s) reader_record(i, v); break;
+        case 4: { CbReader r(s, i); cocls::future<void> fin; r.done = fin.get_promise(); r.pump(); fin.wait(); break; }
         default:
             for (;;) {
                 long c = dsim::cell_get(CLOSED), kk = dsim::cell_get(RD_KICKED + i);   // sampled BEFORE the poll
